@@ -11,6 +11,7 @@ import (
 	verifruntime "runtime"
 	verifsync "sync"
 	veriftime "time"
+	verifunsafe "unsafe"
 )
 
 type verifReplayVal struct {
@@ -128,12 +129,18 @@ func verifBytes(n int) []byte {
 
 func verifString(n int) string { return string(verifBytes(n)) }
 
-// verifAbstractBytes returns a byte slice of length n whose contents are irrelevant.
-// Natively lengths above 1<<26 are not materialised (the replay reports that instead).
+// verifAbstractBytes returns a byte slice of length n whose contents are irrelevant. Natively, lengths above 64 MiB are
+// not backed by memory: the slice header points at one static byte, which is sound for the harnesses that use such
+// lengths because they only ever take len() of the data (sizes, not contents, are their subject).
+var verifOneByte [1]byte
+
 func verifAbstractBytes(n int) []byte {
-	if n < 0 || n > 1<<26 {
-		println("VERIF-REPLAY-TOO-LARGE: abstract length not materialisable natively")
+	if n < 0 {
+		println("VERIF-REPLAY-TOO-LARGE: negative abstract length")
 		verifos.Exit(6)
+	}
+	if n > 1<<26 {
+		return verifunsafe.Slice(&verifOneByte[0], n)
 	}
 	return make([]byte, n)
 }
